@@ -9,6 +9,16 @@ def explicit_job(job, evs):
     j.pop("explore", None)
     end = evs[-1]
     j["sched"] = end.get("sched", [])
+    inj = (evs[0].get("cfg") or {}).get("inject")
+    if inj:
+        for st in j.get("stages", []):
+            if st.get("victim"):
+                for p in st.get("parts", []):
+                    if inj["kind"] == "crash":
+                        p["crash_at"] = inj["at"]
+                    else:
+                        p["fault_at"] = inj["at"]
+                        p["fault_errno"] = inj["errno"]
     return j
 
 
